@@ -471,6 +471,58 @@ fn collect_oracles(report: &Value, pid: i32, blamed: i32, p: &mdparse::Parsed, i
         "limits": raw_stream_compare(p, img, mdparse::T_LIMITS, &format!("/proc/{b}/limits")),
         "lsb": raw_stream_compare(p, img, mdparse::T_LSB, if std::path::Path::new("/etc/lsb-release").exists() { "/etc/lsb-release" } else { "/etc/os-release" }),
     });
+    // independent ELF identification of every named mapping that starts a file (or an embedded image):
+    // from the file when it exists, and from the mapped memory
+    let mut mods = Vec::new();
+    {
+        let text = o["maps"].as_str().unwrap_or("").to_string();
+        let lines = crate::maps::parse_text(&text);
+        // mapping groups exactly as MapsAggregate (the model validated by C13) forms them
+        struct G { start: u64, end: u64, sys_end: u64, off: u64, name: Option<String>, perms: Vec<String>, exec: bool, privonly: bool }
+        let mut gs: Vec<G> = Vec::new();
+        for l in &lines {
+            let is_path = |n: &Option<String>| n.as_deref().map(|s| s.contains('/')).unwrap_or(false);
+            let lname = l.name.as_ref().map(|n| n.strip_suffix(" (deleted)").unwrap_or(n).to_string());
+            let lexec = l.perms.as_bytes().get(2) == Some(&b'x');
+            let lpriv = l.perms == "---p";
+            let n = gs.len();
+            if n >= 1 {
+                let contiguous = l.start == gs[n - 1].end;
+                if contiguous && lname.is_some() && lname == gs[n - 1].name {
+                    let g = &mut gs[n - 1];
+                    g.end = l.end; g.sys_end = l.end; g.exec |= lexec; g.privonly &= lpriv; g.perms.push(l.perms.clone());
+                    continue;
+                } else if contiguous && gs[n - 1].exec && is_path(&gs[n - 1].name) && (l.off == 0 || l.off == gs[n - 1].end) && lpriv {
+                    gs[n - 1].end = l.end;
+                    continue;
+                }
+            }
+            if n >= 2 {
+                let (pp, p) = (&gs[n - 2], &gs[n - 1]);
+                if is_path(&pp.name) && pp.end == p.start && p.off == 0 && p.privonly && p.name.is_none() && p.end == l.start && lname == pp.name {
+                    gs.pop();
+                    let g = gs.last_mut().unwrap();
+                    g.end = l.end; g.sys_end = l.end; g.exec |= lexec; g.privonly &= lpriv; g.perms.push(l.perms.clone());
+                    continue;
+                }
+            }
+            gs.push(G { start: l.start, end: l.end, sys_end: l.end, off: l.off, name: lname, perms: vec![l.perms.clone()], exec: lexec, privonly: lpriv });
+        }
+        for g in &gs {
+            if let Some(name) = &g.name {
+                let path = name.clone();
+                let mem = target::read_mem(pid, g.start, ((g.sys_end - g.start) as usize).min(1 << 20)).unwrap_or_default();
+                let file = if path.starts_with('/') && g.off == 0 { std::fs::read(&path).ok() } else { None };
+                let idm = crate::elfgen::oracle_build_id(&mem).map(|x| mdparse::hexs(&x.0));
+                let idf = file.as_ref().and_then(|f| crate::elfgen::oracle_build_id(f)).map(|x| mdparse::hexs(&x.0));
+                let som = crate::elfgen::oracle_soname(&mem).map(|s| String::from_utf8_lossy(&s).into_owned());
+                let sof = file.as_ref().and_then(|f| crate::elfgen::oracle_soname(f)).map(|s| String::from_utf8_lossy(&s).into_owned());
+                mods.push(json!({"name": name, "start": g.start, "end": g.end, "off": g.off, "perms": g.perms,
+                                 "id_mem": idm, "id_file": idf, "soname_mem": som, "soname_file": sof, "file_exists": file.is_some()}));
+            }
+        }
+    }
+    o["modules_oracle"] = json!(mods);
     // descriptors
     let mut fds = Vec::new();
     if let Ok(rd) = std::fs::read_dir(format!("/proc/{pid}/fd")) {
